@@ -164,8 +164,23 @@ func runC02(w *World, tier string) (bool, interface{}) {
 	mode := 0
 	if w.Tape.Bool(1, 2, "byzantine") {
 		byz = w.Tape.Choose(n, "byz")
-		mode = w.Tape.Choose(4, "byzMode")
+		mode = w.Tape.Choose(6, "byzMode")
 		w.Stats.Fault("byz-key-announcement")
+		if w.Tape.Bool(1, 2, "byzAnnouncesLast") {
+			// the deviating announcement is held back until everybody else's is on the board
+			c.Ops[byz].Filter = func(op *types.Operation) bool {
+				if string(op.Type) != string(dpf.StateDkgMasterKeyAwaitConfirmations) {
+					return true
+				}
+				cnt := 0
+				for _, m := range w.Board.Msgs {
+					if m.DkgRoundID == op.DKGIdentifier && m.Event == string(dpf.EventDKGMasterKeyConfirmationReceived) {
+						cnt++
+					}
+				}
+				return cnt >= n-1
+			}
+		}
 		c.Ops[byz].Tamper = func(op *types.Operation, result []byte) []byte {
 			if string(op.Type) != string(dpf.StateDkgMasterKeyAwaitConfirmations) {
 				return result
@@ -186,6 +201,10 @@ func runC02(w *World, tier string) (bool, interface{}) {
 				return result
 			}
 			switch mode {
+			case 4: // same group key, no polynomial at all (as a pre-0.1.5 node would send)
+				req.PubPolyBz = nil
+			case 5:
+				req.PubPolyBz = []byte{}
 			case 0: // same group key, another polynomial (coefficient 1 replaced by a valid point)
 				pj.Commitments[1] = pj.Commitments[0]
 			case 1: // polynomial of another degree
@@ -196,7 +215,7 @@ func runC02(w *World, tier string) (bool, interface{}) {
 				pj.Commitments[0], pj.Commitments[1] = pj.Commitments[1], pj.Commitments[0]
 				req.MasterKey = pj.Commitments[0]
 			}
-			if mode != 2 {
+			if mode != 2 && mode < 4 {
 				req.PubPolyBz, _ = json.Marshal(pj)
 			}
 			ro.ResultMsgs[0].Data, _ = json.Marshal(req)
